@@ -259,4 +259,16 @@ example : stepO [] (encode [⟨0x34, List.replicate 21 7⟩, ⟨0x33, List.repli
     = .ok ([], [Frame.raw ⟨0x33, List.replicate 21 0x1A⟩]) := by
   decide +kernel
 
+/-- **The constants regenerated from `beast.rs` are the documented ones** (audit e, F7): a frame is looked for
+    once 23 bytes are buffered (the longest frame, `1a 33` + 6 + 1 + 14 bytes), escape byte 0x1a, types
+    '1'–'4' of 11/16/23/23 bytes, type '4' not yielded, reads of at most 1024 bytes.  The theorems above are stated
+    with the regenerated names; this one fails when a number in the source is edited. -/
+theorem source_constants_literal :
+    Gen.Beast.LOOKAHEAD = 23 ∧ Gen.Beast.LOOKAHEAD_RESYNC = 23 ∧ Gen.Beast.ESC_SYNC = 26 ∧ Gen.Beast.ESC_DATA = 26 ∧
+    Gen.Beast.ESC_NEXT = 26 ∧ Gen.Beast.TYPE_INDEX = 1 ∧ Gen.Beast.VALID_TYPES = [49, 50, 51, 52] ∧
+    (Gen.Beast.VALID_TYPES.map Gen.Beast.msgSize) = [11, 16, 23, 23] ∧ Gen.Beast.HEADER_LEN = 2 ∧
+    Gen.Beast.SCAN_START = 2 ∧ Gen.Beast.DROPPED_TYPE = 52 ∧ Gen.Beast.RESYNC_SKIP = 1 ∧
+    Gen.Beast.READ_BUFFER = 1024 := by
+  decide
+
 end Rs1090.Props.C09
